@@ -67,7 +67,9 @@ Cases ==
     UNION {{[m |-> "flatten", op |-> "flatten", wd |-> 5000, mesh |-> ms, T |-> Motions[1], T2 |-> Motions[2], disk |-> TRUE, sc |-> k] : k \in {-17, 10}} : ms \in Disks} \cup
     {[m |-> "flatten", op |-> "uv", wd |-> 5000, mesh |-> ms, T |-> Motions[t], disk |-> TRUE] : ms \in {x \in Disks : x.planar}, t \in 1..NPose} \cup
     \* the same maps stored with v pointing down (all uv triangles clockwise)
-    {[m |-> "flatten", op |-> "uv", wd |-> 5000, mesh |-> ms, T |-> Motions[1], disk |-> TRUE, uvflip |-> 1] : ms \in {x \in Disks : x.planar}}
+    {[m |-> "flatten", op |-> "uv", wd |-> 5000, mesh |-> ms, T |-> Motions[1], disk |-> TRUE, uvflip |-> 1] : ms \in {x \in Disks : x.planar}} \cup
+    \* the uv map attached through Mesh::new_with_options instead of Mesh::new_with_uv
+    {[m |-> "flatten", op |-> "uv", wd |-> 5000, mesh |-> ms, T |-> Motions[2], disk |-> TRUE, ctor |-> 1] : ms \in {x \in Disks : x.planar}}
 
 Init == case \in Cases
 Next == UNCHANGED case
